@@ -699,10 +699,15 @@ class B:
         return Frame(self.tid, self.lineno() if line is None else line, role)
 
 
+# characters at which str.splitlines() breaks a line but which are no line ends for mako (only "\n" is)
+EXOTIC_TEXT = ["form\x0cfeed", "vertical\x0btab", "fs\x1cgs\x1drs\x1e.", "nel\x85x", "ls\u2028x", "ps\u2029x", "lone\rcr",
+               "cr cr lf\r\r", "crlf\r", "\x0c", "\u2028\u2029"]
+
+
 def g_text(b):
     for _ in range(b.rng.randint(1, 2)):
         c = b.rng.choice(["plain text", "  indented text", "text with # hash", "## mako comment", "text \\",
-                          "unicode é世", "a ${'inline'} b", ""])
+                          "unicode é世", "a ${'inline'} b", ""] + EXOTIC_TEXT)
         b.add(c)
         if c.endswith("\\"):
             b.add("continued")        # the backslash swallows the newline: never put a tag/control line next
@@ -1115,6 +1120,12 @@ def witness_sets():
     """minimal witnesses, one per emission site that matters; run first in every tier"""
     W = []
     W.append(("expr", hand_set({"main": "a\nb\n${{S}}\nc"}, "expr", "1", "1/0", [("main", 3, "slot:expr")])))
+    W.append(("exotic-line-boundaries", hand_set(
+        {"main": "a\x0cb\x0bc\n\x1cd\x1de\x1ef\x85g\nh\u2028i\u2029j\rk\r\r\n${{S}}\nlast\x0c"}, "expr", "1", "1/0",
+        [("main", 4, "slot:expr")])))
+    W.append(("exotic-include", hand_set(
+        {"main": "m\x0c\u2028\n<%include file=\"/inc.html\"/>\nlast", "inc": "i\x85\r\x0b\n\n${{S}}"}, "expr", "1", "1/0",
+        [("main", 2, "include"), ("inc", 3, "slot:expr")])))
     W.append(("code", hand_set({"main": "a\n<%\n  x = 1\n  {S}\n%>\nc"}, "code", "pass", "raise ValueError('m')",
                                [("main", 4, "slot:code")])))
     W.append(("control-for-loop", hand_set({"main": "a\nb\n% for i in ({S},):\n${str(loop.index)}\n% endfor\nc"}, "control-for-loop",
@@ -1260,6 +1271,20 @@ TEXT_FRAME = re.compile(r'^  File "(.*)", line (\d+), in (.*)$')
 HTML_LOC = re.compile(r'<div class="location">(.*?), line (\d+):</div>')
 
 
+def parse_html_tb(out):
+    """[(filename, lineno, source text)] of the per-frame stack trace of the HTML error page, traceback order"""
+    import html as _html
+    res = []
+    ms = list(HTML_LOC.finditer(out))
+    for i, m in enumerate(ms):
+        seg = out[m.end(): ms[i + 1].start() if i + 1 < len(ms) else len(out)]
+        c = re.search(r'<td class="code">.*?<pre>(.*?)</pre>', seg, re.S) or \
+            re.search(r'<div class="sourceline">(.*?)</div>', seg, re.S)
+        src = _html.unescape(re.sub(r"<[^>]*>", "", c.group(1))) if c else None
+        res.append((m.group(1), int(m.group(2)), src))
+    return res[::-1]
+
+
 def parse_text_tb(out):
     lines = out.split("\n")
     res = []
@@ -1315,6 +1340,9 @@ def check_traceback(ts, slot, path, env, views=("records", "text", "html", "form
                 problems.append(("plain-frame-changed", {"raw": list(fr), "record": list(r[:4])}))
         else:
             got_t.append((r[4], r[5], r[6], r[1], r[3]))
+            if r[5] and r[7] is not None and 1 <= r[5] <= len(r[7].split("\n")) and r[6] != r[7].split("\n")[r[5] - 1]:
+                problems.append(("record-source-text-not-line-of-source", {"line": r[5], "text": r[6],
+                                                                           "line_of_source": r[7].split("\n")[r[5] - 1]}))
     if len(recs) != len(raw):
         problems.append(("record-count", {"records": len(recs), "raw": len(raw)}))
     summary = {"expected": [(e[0] if False else os.path.basename(str(e[0])), e[1], e[3]) for e in exp],
@@ -1364,8 +1392,14 @@ def check_traceback(ts, slot, path, env, views=("records", "text", "html", "form
                 if e[1] is not None and k not in bad_idx and e[2] is not None and tf[pos][3] != e[2].strip():
                     problems.append(("view:text-source:" + e[3], {"expected": e[2].strip(), "got": tf[pos][3]}))
     if html_out is not None:
-        hf = [(a, int(b)) for a, b in HTML_LOC.findall(html_out)][::-1]
+        hf = parse_html_tb(html_out)
         view_check("html", hf)
+        if len(hf) == len(recs):
+            for k, pos in enumerate(tmpl_pos):
+                e = exp[k]
+                if (e[1] is not None and k not in bad_idx and e[2] is not None and hf[pos][2] is not None
+                        and " ".join(hf[pos][2].split()) != " ".join(e[2].split())):
+                    problems.append(("view:html-source:" + e[3], {"expected": e[2].strip(), "got": hf[pos][2]}))
     if "format_exceptions" in views:
         t2, names2, texts2 = env.build(ts, slot.sid, path, format_exceptions=True)
         exp2 = expected_frames(ts, slot, names2, texts2)
@@ -1374,10 +1408,12 @@ def check_traceback(ts, slot, path, env, views=("records", "text", "html", "form
         except Exception as e:
             problems.append(("format_exceptions-raised", {"error": repr(e)[:200]}))
         else:
-            hf = [(a, int(b)) for a, b in HTML_LOC.findall(out)][::-1]
+            hf3 = parse_html_tb(out)
+            hf = [(a, b) for a, b, c in hf3]
             # the traceback starts inside the runtime here: compare the template frames only
             reg_names = {e[0] for e in exp2}
             shown_t = [x for x in hf if x[0] in reg_names]
+            shown_src = [x[2] for x in hf3 if x[0] in reg_names]
             want = [(e[0], e[1]) for e in exp2]
             if len(shown_t) != len(want):
                 # frames whose template line is shown with generated coordinates are not recognisable: count only
@@ -1387,6 +1423,10 @@ def check_traceback(ts, slot, path, env, views=("records", "text", "html", "form
                 for k, (w, g) in enumerate(zip(want, shown_t)):
                     if w[1] is not None and w != g and k not in bad_idx:
                         problems.append(("view:format_exceptions:" + exp2[k][3], {"expected": list(w), "got": list(g)}))
+                    elif (w[1] is not None and k not in bad_idx and exp2[k][2] is not None and shown_src[k] is not None
+                          and " ".join(shown_src[k].split()) != " ".join(exp2[k][2].split())):
+                        problems.append(("view:format_exceptions-source:" + exp2[k][3],
+                                         {"expected": exp2[k][2].strip(), "got": shown_src[k]}))
     return problems, summary
 
 
@@ -1869,7 +1909,7 @@ def corr_c(ctx):
     try:
         for (reg, ln, fm, nt), o in zip(cases, outs):
             st["cases"] += 1
-            tlines = ["line%d" % i for i in range(nt)]
+            tlines = ["line%d%s" % (i, rng.choice(["", "", "\x0c", "\u2028x", "\rq", "\x85", "\x0b\x1c"])) for i in range(nt)]
             MT.ModuleInfo._modules.pop("m", None)
             if reg:
                 info = object.__new__(MT.ModuleInfo)
@@ -1888,7 +1928,8 @@ def corr_c(ctx):
                 if r[4] is None:
                     got = "plain"
                 else:
-                    got = "tl=%d line=%s" % (r[5], "none" if r[6] is None else tlines.index(r[6]))
+                    got = "tl=%d line=%s" % (r[5], "none" if r[6] is None else
+                                             (tlines.index(r[6]) if r[6] in tlines else "?" + repr(r[6])))
                 shown = rt.traceback[1]
                 got += " ref=" + ("t" if shown[0] == "t" else "r")
                 if rt.records[0][4] is not None or rt.traceback[0] != ("outer.py", 7, "g", "call()"):
